@@ -449,6 +449,29 @@ pub struct MapVec {
     pub m: HashMap<String, Vec<i32>>,
 }
 
+#[derive(Form, Debug, Clone, PartialEq)]
+pub struct HbStruct {
+    #[form(header_body)]
+    pub p: Plain,
+    pub n: i32,
+}
+
+#[derive(Form, Debug, Clone, PartialEq)]
+pub struct HdrOpt {
+    #[form(header)]
+    pub o: Option<i32>,
+    pub n: i32,
+}
+
+#[derive(Form, Debug, Clone, PartialEq)]
+pub struct Hdr2 {
+    #[form(header)]
+    pub a: i32,
+    #[form(header)]
+    pub b: Vec<String>,
+    pub n: i32,
+}
+
 /// An enumeration whose variants use the attribute and header positions.
 #[derive(Form, Debug, Clone, PartialEq)]
 pub enum Ev2 {
@@ -558,6 +581,10 @@ pub enum TV {
     BodyField { h: i32, b: Vec<i32> },
     OptStruct { o: Option<(i32, String, Option<i64>)>, n: i32 },
     MapVec { m: BTreeMap<String, Vec<i32>> },
+    HbStruct { a: i32, b: String, c: Option<i64>, n: i32 },
+    HdrOpt { o: Option<i32>, n: i32 },
+    Hdr2 { a: i32, b: Vec<String>, n: i32 },
+    VecOptPlain(Vec<Option<(i32, String, Option<i64>)>>),
     /// `Ev2`: `kind` 0..=3 selects the variant; unused fields are ignored.
     Ev2 { kind: u8, n: i32, v: Vec<i32>, m: BTreeMap<String, i32>, o: Option<i32> },
     /// `swimos_model::Timestamp`, microseconds since the epoch (not negative).
@@ -656,6 +683,10 @@ impl TV {
             TV::OptStruct { .. } => "struct_opt_struct",
             TV::MapVec { .. } => "struct_map_vec",
             TV::Ev2 { .. } => "enum_ev2",
+            TV::HbStruct { .. } => "struct_header_body_struct",
+            TV::HdrOpt { .. } => "struct_header_opt",
+            TV::Hdr2 { .. } => "struct_two_headers",
+            TV::VecOptPlain(_) => "vec_opt_struct_plain",
         }
     }
 
@@ -669,7 +700,7 @@ impl TV {
             _ => false,
         };
         vis.note_infinite_float(infinite);
-        vis.note_lone_absent_item(matches!(self, TV::VecOptI32(v) if v.len() == 1 && v[0].is_none()));
+        vis.note_lone_absent_item(matches!(self, TV::VecOptI32(v) if v.len() == 1 && v[0].is_none()) || matches!(self, TV::VecOptPlain(v) if v.len() == 1 && v[0].is_none()));
         vis.note_attr_single_slot(matches!(self, TV::AttrOne { .. }));
         vis.note_empty_attr_vec(
             matches!(self, TV::AttrRows { rows, .. } if rows.is_empty())
@@ -733,6 +764,10 @@ impl TV {
                 };
                 vis.visit(name, e, eq_std)
             }
+            TV::HbStruct { a, b, c, n } => vis.visit(name, HbStruct { p: Plain { a: *a, b: b.clone(), c: *c }, n: *n }, eq_std),
+            TV::HdrOpt { o, n } => vis.visit(name, HdrOpt { o: *o, n: *n }, eq_std),
+            TV::Hdr2 { a, b, n } => vis.visit(name, Hdr2 { a: *a, b: b.clone(), n: *n }, eq_std),
+            TV::VecOptPlain(v) => vis.visit(name, v.iter().map(|o| o.as_ref().map(|(a, b, c)| Plain { a: *a, b: b.clone(), c: *c })).collect::<Vec<Option<Plain>>>(), eq_std),
             TV::MapVec { m } => vis.visit(name, MapVec { m: m.iter().map(|(k, v)| (k.clone(), v.clone())).collect() }, eq_std),
         }
     }
@@ -1048,6 +1083,29 @@ impl TV {
             TV::Ev2 { kind, n, v, m, o } => {
                 if *n != 0 || !v.is_empty() || !m.is_empty() || matches!(o, Some(x) if *x != 0) {
                     out.push(TV::Ev2 { kind: *kind, n: 0, v: if v.is_empty() { vec![] } else { v[1..].to_vec() }, m: BTreeMap::new(), o: o.map(|_| 0) });
+                }
+            }
+            TV::HbStruct { a, b, c, n } => {
+                if *a != 0 || !b.is_empty() || c.is_some() || *n != 0 {
+                    out.push(TV::HbStruct { a: 0, b: String::new(), c: None, n: 0 });
+                }
+            }
+            TV::HdrOpt { o, n } => {
+                if matches!(o, Some(x) if *x != 0) || *n != 0 {
+                    out.push(TV::HdrOpt { o: o.map(|_| 0), n: 0 });
+                }
+            }
+            TV::Hdr2 { a, b, n } => {
+                if !b.is_empty() {
+                    out.push(TV::Hdr2 { a: *a, b: b[1..].to_vec(), n: *n });
+                }
+                if *a != 0 || *n != 0 {
+                    out.push(TV::Hdr2 { a: 0, b: b.clone(), n: 0 });
+                }
+            }
+            TV::VecOptPlain(v) => {
+                if v.len() > 1 {
+                    out.push(TV::VecOptPlain(v[1..].to_vec()));
                 }
             }
             TV::MapVec { m } => {
